@@ -243,14 +243,28 @@ def check(ctx: Ctx) -> None:
         ob.site(f_ex, comp[0] if comp else f_ex.node, "compile(source, file_name or ..., 'exec')", ok=ok)
         if not ok:
             ob.violation(f_ex, f_ex.node, "the source is not compiled under the transmitted file name (tracebacks would not name the original file)")
+        # the code object that is executed is the one compiled from *this* request (a cache keyed by less than
+        # (source, file name) would run code compiled under another request's file name)
+        ev_ex = _ev(repo, f_ex, Oracle(repo, f_ex, nonraising=NONRAISING))
+        nexec = 0
+        for (_p, st_) in ev_ex.run(limit=40000):
+            for e in st_.events:
+                if e.kind == "call" and e.callee == "exec" and e.args:
+                    nexec += 1
+                    mk = [x for x in st_.events if x.kind == "call" and x.result == e.args[0]]
+                    if not (mk and mk[0].callee == "compile" and st_.events.index(mk[0]) < st_.events.index(e)):
+                        ob.violation(f_ex, e.node, "the executed code object is not compiled from this request's (source, file name): a reused code object carries "
+                                                   "another request's file name into the remote traceback", construct="exec of a code object not compiled here")
+        ob.require(nexec >= 1, "executetask: exec(...) not found")
         fls = repo.func(f"{GB}.WorkerGateway._local_schedulexec")
         sp = [c for c in repo.calls_in(fls) if callee_attr(c) == "spawn"]
         ld = [c for c in repo.calls_in(fls) if callee_attr(c) == "loads_internal"]
-        ok = len(sp) == 1 and len(ld) == 1 and unparse(ld[0].args[0]) == "sourcetask" and unparse(sp[0].args[0]) == "self.executetask" \
+        ok = len(sp) == 1 and len(ld) == 1 and [unparse(a) for a in ld[0].args] == ["sourcetask"] and not ld[0].keywords and unparse(sp[0].args[0]) == "self.executetask" \
             and isinstance(sp[0].args[1], ast.Tuple) and unparse(sp[0].args[1].elts[0]) == "channel" and unparse(sp[0].args[1].elts[1]) == unparse(repo.parent(ld[0]).targets[0])
         ob.site(fls, sp[0] if sp else fls.node, "scheduler hands (channel, decoded payload) to executetask", ok=ok)
         if not ok:
-            ob.violation(fls, fls.node, "_local_schedulexec does not spawn executetask((channel, loads_internal(sourcetask)))")
+            ob.violation(fls, fls.node, "_local_schedulexec does not spawn executetask((channel, loads_internal(sourcetask))): the request must be decoded with the "
+                                        "internal string settings it was encoded with (dumps_internal), not with a channel's/gateway's reconfigurable ones")
 
     with ctx.obligation("C06.d", "executing-pairing") as ob:
         cfg = build_cfg(repo, f_ex, Oracle(repo, f_ex, nonraising=NONRAISING))
